@@ -314,18 +314,22 @@ def rule_matchers_confined(ctx):
     # 5. number of matchers == number of pool threads
     wn = find_fn(facts, "nucleo", "worker::Worker::<T>::new")
     nt = [t for bi, t in wn.calls(lambda t: callee(t).endswith("ThreadPoolBuilder::<S>::num_threads") or callee(t).endswith("::num_threads"))]
-    rng = None
+    # how many matchers are made: the end of the range that is mapped to matchers, and / or the `take(n)` of a
+    # repeat_with / repeat source (both, when a range is truncated)
+    counts = []
     for bi, si_, s in wn.stmts(lambda s: s["k"] == "assign" and s["rv"].get("agg") == "adt" and s["rv"].get("adt", "").endswith("ops::Range")):
-        rng = s["rv"]
-    if not nt or rng is None:
-        raise Inconclusive("Worker::new: num_threads call or matcher range not found")
+        counts.append(wn.expr_of_operand(s["rv"]["ops"][1]))
+    for bi, t in wn.calls(lambda t: callee(t).endswith("Iterator::take") and len(t["args"]) == 2):
+        counts.append(wn.expr_of_operand(t["args"][1]))
+    if not nt or not counts:
+        raise Inconclusive("Worker::new: num_threads call or matcher count (range / take) not found")
     a = wn.expr_of_operand(nt[0]["args"][1])
-    bnd = wn.expr_of_operand(rng["ops"][1])
-    if a == bnd:
+    bad = [c for c in counts if c != a]
+    if not bad:
         ctx.ok(site(wn, 0), "pool size and matcher count are the same value: %s" % show(a))
     else:
         ctx.violation("worker::Worker::<T>::new|matcher-count|1", site(wn, 0),
-                      "pool has %s threads but %s matchers are allocated" % (show(a), show(bnd)))
+                      "pool has %s threads but %s matchers are allocated" % (show(a), show(bad[0])))
 
 
 def rule_guard_moved(ctx):
